@@ -23,6 +23,14 @@ class ScaledAdjuster(_utils.ChunksizeAdjuster):
         super().__init__(max_size, min_size, max_parts)
 
 
+class _UserBaseException(BaseException):
+    """an application exception that does not derive from Exception"""
+
+
+EXIT_EXC = {'ValueError': ValueError, 'SystemExit': SystemExit,
+            'BaseException': _UserBaseException}
+
+
 def _coordinator_patches(world):
     """Wrappers that (a) make the racy unsynchronised reads scheduling points
     and (b) log the coordinator's linearization points.  Only public,
@@ -103,6 +111,33 @@ def _coordinator_patches(world):
     wrap('announce_done',
          before=lambda self: s.emit('AnnounceBegin', x=xid(self), status=st(self)),
          after=lambda self: s.emit('AnnounceEnd', x=xid(self), status=st(self)))
+    # the manager's controller (public names; skipped when missing): when the
+    # cancel-everything loop starts and ends, and a wait() ended by Ctrl-C
+    try:
+        import s3transfer.manager as _manager
+        CT = getattr(_manager, 'TransferCoordinatorController', None)
+    except ImportError:
+        CT = None
+    if CT is not None and callable(getattr(CT, 'cancel', None)):
+        orig_cancel = CT.cancel
+
+        def ctl_cancel(self, *a, **kw):
+            s.emit('CtlCancelBegin')
+            try:
+                return orig_cancel(self, *a, **kw)
+            finally:
+                s.emit('CtlCancelEnd')
+        patches.append((CT, 'cancel', ctl_cancel))
+    if CT is not None and callable(getattr(CT, 'wait', None)):
+        orig_wait = CT.wait
+
+        def ctl_wait(self, *a, **kw):
+            try:
+                return orig_wait(self, *a, **kw)
+            except KeyboardInterrupt:
+                s.emit('CtlWaitKbi')
+                raise
+        patches.append((CT, 'wait', ctl_wait))
     return patches
 
 
@@ -231,7 +266,7 @@ def _user(w, sc):
             s.emit('CancelCall', how=cancel['how'], x=-1,
                    msg=cancel.get('msg', 'boom'))
             if cancel['how'] == 'exit-exc':
-                raise ValueError(cancel.get('msg', 'boom'))
+                raise EXIT_EXC[cancel.get('exc', 'ValueError')](cancel.get('msg', 'boom'))
             raise KeyboardInterrupt()
         if u.get('results', True) and not u.get('sequential'):
             for x in range(n):
@@ -273,7 +308,7 @@ def _user(w, sc):
                         w.manager.shutdown()
                     finally:
                         (w._snapshot_hook(s), s.emit('ShutdownEnd', by='user'))
-    except (ValueError, KeyboardInterrupt) as e:
+    except (ValueError, KeyboardInterrupt, SystemExit, _UserBaseException) as e:
         s.emit('UserExit', exc=type(e).__name__)
     # results after shutdown (never block once shutdown returned, unless buggy)
     for x in list(w.futures):
